@@ -309,7 +309,6 @@ def errTag : GenErr → String
   | .unknownFunction f => "UnknownFunction:" ++ f
   | .attributeError _ => "AttributeError"
   | .assertion w => "Assertion:" ++ w
-  | .degenerateMap => "DegenerateMap"
   | .keyError x => "KeyError:" ++ x
   | .zeroStep => "ZeroStep"
 
